@@ -56,6 +56,13 @@ ORIG_EXPECT = [
     ("C20", "R20.1", "_escape_value"), ("C20", "R20.2", "_format_string"), ("C20", "R20.3", "_strip_comments"),
     ("C11", "R11.5", "_encode_varint"), ("C11", "R11.5", "_decompress_path_from_stream"), ("C19", "R19.2", "read_pkt_line"),
     ("C04", "R04.10", "add_thin_pack"), ("C04", "R04.10", "commit"),
+    ("C15", "R15.8", "Blob.splitlines"), ("C01", "R01.8", "Blob.splitlines"),
+    ("C11", "R11.7", "SHA1Reader.check_sha"), ("C04", "R04.13", "SHA1Reader.check_sha"),
+    ("C05", "R05.7", "_handle_upload_pack_head"),
+    ("C10", "R10.11", "get_object_mtime"), ("C10", "R10.12", "PackBasedObjectStore.__iter__"), ("C10", "R10.12", "_iter_loose_objects"),
+    ("C14", "R14.9", "get_tree_objects"), ("C14", "R14.9", "get_reachable_commits"), ("C14", "R14.10", "build_reachability_bitmap"),
+    ("C14", "R14.11", "get_peeled"), ("C14", "R14.11", "add_packed_refs"), ("C14", "R14.11", "get_packed_refs"),
+    ("C17", "R17.10", "apply_patches"), ("C17", "R17.10", "_apply_rename_or_copy"), ("C17", "R17.10", "apply_included_paths"),
     ("C14", "R14.6", "_combine_commit_bitmaps"), ("C14", "R14.6", "GraphTraversalReachability.get_reachable_objects"),
     ("C13", "R13.3", "_find_lcas"), ("C20", "R20.5", "_escape_value"), ("C06", "R06.5", "DiskRefsContainer.set_if_equals"),
 ]
